@@ -26,6 +26,7 @@ PRICES_FULL = ["0.00000001", "0.000123", "0.07", "1", "3.33", "19999.99", "10000
 AMOUNTS_QUICK = ["0.00000000001", "0.3", "7.77777777777", "1000000000"]
 PRICES_QUICK = ["0.00000001", "0.000123", "0.07", "3.33", "10000000"]
 METHODS = ("fifo", "lifo", "hifo", "lofo")
+EARN_TYPES = ("AIRDROP", "HARDFORK", "INCOME", "INTEREST", "MINING", "STAKING", "WAGES")
 
 T0 = "2020-03-01 12:00:00+00:00"
 T1 = "2020-03-02 12:00:00+00:00"
@@ -169,6 +170,18 @@ def check_figures(specs: Sequence[Dict[str, Any]], computed: Any) -> Tuple[List[
         fiat, total = event_taxable_fiat_and_total(by_row[r])
         if per_event_amount[r] == total and not close(total_p, fiat, abs(fiat)):
             problems.append(f"fractions of event row {r} add up to proceeds {total_p}, taxable fiat value is {fiat}")
+    # every history here covers all its disposals, so the pieces of EVERY taxable row must add back to its whole taxable fiat value
+    # (a transfer fee worth less than 1e-12 fiat is below RP2's comparison precision and may not be an event at all)
+    for s in specs:
+        r = s["row"]
+        if s["table"] == "in" and s["transaction_type"].upper() not in EARN_TYPES:
+            continue
+        fiat, total = event_taxable_fiat_and_total(s)
+        if s["table"] == "intra" and fiat < Fraction(1, 10**12):
+            continue
+        if per_event_amount.get(r, Fraction(0)) != total and not close(per_event.get(r, Fraction(0)), fiat, abs(fiat)):
+            problems.append(f"fractions of event row {r} cover {per_event_amount.get(r, Fraction(0))} of {total} units and add up to proceeds {per_event.get(r, Fraction(0))}, "
+                            f"taxable fiat value is {fiat}")
     for r, total_c in per_lot.items():
         if per_lot_amount[r] == F(by_row[r]["crypto_in"]) and not close(total_c, lot_cost(by_row[r]), lot_cost(by_row[r])):
             problems.append(f"fractions of fully consumed lot row {r} add up to cost {total_c}, full cost is {lot_cost(by_row[r])}")
